@@ -274,6 +274,8 @@ class ServerProp(Prop):
         errs = []
         sentb = {}
         quiet = False
+        flushed = False
+        flush_drains = []      # (client, bytes received so far, answers supplied so far) at drains right after a flush, no poll between
         quiet_drains = []      # (client, bytes sent by it so far, bytes received by it so far) at drains right after a blocked poll
         for i, op, ls in steps:
             if op[0] == 1:
@@ -282,8 +284,13 @@ class ServerProp(Prop):
                 quiet = False
             elif op[0] in (6, 11):
                 quiet = bool(ls) and ls[-1].endswith('poll blocked')
+                flushed = False
+            elif op[0] == 8:
+                flushed = True
+                quiet = False
             elif op[0] not in (5,):
                 quiet = False
+                flushed = False
             for ln in ls:
                 if ' poll ' in ln:
                     polls.append((i, ln))
@@ -311,7 +318,9 @@ class ServerProp(Prop):
                     status[c] = p[6]
                     if quiet:
                         quiet_drains.append((c, sentb.get(c, 0), rx[c]))
-        return {'quiet_drains': quiet_drains, 'yielded': yielded, 'answered': answered, 'rx': rx, 'status': status, 'polls': polls,
+                    if flushed:
+                        flush_drains.append((c, rx[c], [u for (u, e) in answered.get(c, []) if e]))
+        return {'quiet_drains': quiet_drains, 'flush_drains': flush_drains, 'yielded': yielded, 'answered': answered, 'rx': rx, 'status': status, 'polls': polls,
                 'errs': errs, 'end': end, 'outstanding': outstanding}
 
     def viol(self, t, exp, obs, sig):
@@ -477,6 +486,21 @@ class C08(ServerProp):
                 h.drain(c)
             h.finish()
             out.append(self.mk(h, 0, {'kind': 'respond-flush-poll'}))
+        # pipelined requests answered in a batch, then flush, then the client reads without any polling
+        for _ in range(100 if tier == 'quick' else 3000):
+            h = Hist(rng)
+            cs = [h.connect() for _ in range(rng.randint(1, 2))]
+            h.ops.append([11, 4])
+            for c in cs:
+                h.request(c, pipelined=rng.choice([2, 3, 4]), poll_between=False)
+            h.ops.append([11, 8])
+            for _ in range(rng.randint(2, 8)):
+                h.ops.append([12, rng.randint(0, 3)])
+            h.ops.append([8])
+            for c in cs:
+                h.ops.append([5, c])
+            h.finish()
+            out.append(self.mk(h, 0, {'kind': 'batch-flush-drain'}))
         return out
 
     def oracle(self, cases, impl):
@@ -519,6 +543,18 @@ class C08(ServerProp):
                     if stalled:
                         v.append(self.viol(t, 'client %d: %d interim responses due once the server is quiescent' % stalled[:2],
                                            'received %d (unsent output while the epoll descriptor does not signal)' % stalled[2], 'stall'))
+                        continue
+                    # flushing delivers every queued response that fits the socket buffer, without polling
+                    short = None
+                    for (c, got, want) in a['flush_drains']:
+                        rs = pyhttp.read_all(got)
+                        echoes = [b[5:] for (_, _, b) in (rs or []) if b.startswith(b'echo:')]
+                        if echoes != want:
+                            short = (c, want, echoes)
+                            break
+                    if short:
+                        v.append(self.viol(t, 'after flush_outgoing_writes client %d has received every answer supplied so far: %r' % (short[0], short[1][:4]),
+                                           repr(short[2][:4]), 'flush'))
                         continue
                     # no spin: once nothing is left the epoll descriptor stops signalling
                     finals = [ln for (i, ln) in a['polls'][-2:]]
@@ -580,6 +616,33 @@ class C10(ServerProp):
         for _ in range(350 if tier == 'quick' else 12000):
             h = capacity(rng)
             out.append(self.mk(h, 0, {'kind': 'capacity-%d' % min(h.next_client, 14)}))
+        # the table is full and one entry is a dead client whose request is still unanswered: it still occupies a
+        # slot (the next client is refused); the slot is regained once the answer is supplied
+        for _ in range(40 if tier == 'quick' else 1500):
+            h = Hist(rng)
+            cs = [h.connect() for _ in range(10)]
+            h.ops.append([11, 14])
+            z = rng.choice(cs)
+            h.request(z, poll_between=False)
+            h.ops.append([11, 4])
+            h.ops.append([rng.choice([2, 3]), z])
+            h.alive.remove(z)
+            h.ops.append([11, 4])
+            refused = h.connect()
+            h.ops.append([11, 4])
+            h.drain(refused)
+            h.alive.remove(refused)
+            h.ops.append([12, 0])
+            h.ops.append([11, 4])
+            late = h.connect()
+            h.ops.append([11, 4])
+            h.request(late, poll_between=False)
+            h.ops.append([11, 4])
+            h.ops.append([12, 0])
+            h.ops.append([11, 4])
+            h.drain(late)
+            h.finish()
+            out.append(self.mk(h, 0, {'kind': 'full-with-unanswered-dead-client', 'refused': refused, 'late': late}))
         return out
 
     def oracle(self, cases, impl):
@@ -611,6 +674,15 @@ class C10(ServerProp):
                     v.append(self.viol(t, 'client %d (over capacity) receives exactly the 503 message and is disconnected' % c,
                                        repr(a['rx'].get(c))[:200] + ' ' + str(a['status'].get(c)), 'refusal'))
                     break
+            if 'refused' in m:
+                c = m['refused']
+                if a['rx'].get(c) != SERVER_FULL or a['status'].get(c) != 'eof':
+                    v.append(self.viol(t, 'client %d connects while 10 entries are held (one of them a dead client with an unanswered request): 503 and disconnect' % c,
+                                       repr(a['rx'].get(c))[:160] + ' ' + str(a['status'].get(c)), 'refusal-zombie'))
+                c = m['late']
+                if b'echo:/c%d/r0' % c not in a['rx'].get(c, b''):
+                    v.append(self.viol(t, 'capacity is regained once the answer is supplied: client %d is served' % c,
+                                       repr(a['rx'].get(c))[:160], 'regain'))
             for c in range(0, min(10, nconn0)):
                 if a['rx'].get(c, b'').startswith(b'HTTP/1.1 503'):
                     v.append(self.viol(t, 'existing connections are not disturbed', 'client %d got a 503' % c, 'refusal'))
